@@ -152,19 +152,54 @@ def func_value(tn, x, params):
 def fm_feasible(rows, elim, obj=None):
     """rows: (coefs dict, lb, ub[, strict_lb, strict_ub]) meaning lb <= sum <= ub.
     Eliminates all variables in elim.  With obj=(coefs, const): returns (feasible, min, max)."""
-    ineqs = []   # (coefs, rhs): sum <= rhs
-    for row in rows:
-        co, lb, ub = row[0], row[1], row[2]
-        if ub < INF: ineqs.append((dict(co), ub))
-        if lb > -INF: ineqs.append(({v: -c for v, c in co.items()}, -lb))
+    # Gaussian step first: an equality row containing a variable to eliminate defines it; substitute it
+    # everywhere (keeps Fourier-Motzkin small).  The objective is the equality  oc.x - z = -o0.
+    work = [[dict(row[0]), row[1], row[2]] for row in rows]
     if obj is not None:
         oc, o0 = obj
         co = dict(oc); co['__z'] = -1.0
-        ineqs.append((co, -o0)); ineqs.append(({v: -c for v, c in co.items()}, o0))
-    for v in elim:
+        work.append([co, -o0, -o0])
+    elim = list(elim); elimset = set(elim)
+    progress = True
+    while progress:
+        progress = False
+        for ri, (co, lb, ub) in enumerate(work):
+            if lb != ub or lb in (INF, -INF): continue
+            cand = [(abs(c), v) for v, c in co.items() if v in elimset and abs(c) > 1e-9]
+            if not cand: continue
+            v = max(cand)[1]; c = co[v]
+            del work[ri]
+            for q in work:
+                cq = q[0].get(v, 0.0)
+                if cq == 0.0: continue
+                f = cq / c
+                for k, val in co.items():
+                    if k == v: continue
+                    q[0][k] = q[0].get(k, 0.0) - f * val
+                del q[0][v]
+                q[1] -= f * lb; q[2] -= f * lb
+            elimset.discard(v); elim.remove(v)
+            progress = True
+            break
+    ineqs = []   # (coefs, rhs): sum <= rhs
+    for co, lb, ub in work:
+        co = {k: val for k, val in co.items() if abs(val) > 1e-12}
+        if ub < INF: ineqs.append((dict(co), ub))
+        if lb > -INF: ineqs.append(({v: -c for v, c in co.items()}, -lb))
+    left = sorted(set(elim))
+    while left:
+        # greedy order: the variable whose elimination creates the fewest new rows (ties: smallest index)
+        best = None
+        for w in left:
+            np_ = sum(1 for (c, r) in ineqs if c.get(w, 0.0) > 1e-12)
+            nn_ = sum(1 for (c, r) in ineqs if c.get(w, 0.0) < -1e-12)
+            cost = np_ * nn_ - np_ - nn_
+            if best is None or cost < best[0]: best = (cost, w)
+        v = best[1]; left.remove(v)
         pos = [(c, r) for (c, r) in ineqs if c.get(v, 0.0) > 1e-12]
         neg = [(c, r) for (c, r) in ineqs if c.get(v, 0.0) < -1e-12]
         new = [(c, r) for (c, r) in ineqs if abs(c.get(v, 0.0)) <= 1e-12]
+        if len(pos) * len(neg) + len(new) > 6000: raise Undecided('FM blowup')
         for (cp, rp) in pos:
             for (cn, rn) in neg:
                 ap = cp[v]; an = -cn[v]
@@ -173,9 +208,15 @@ def fm_feasible(rows, elim, obj=None):
                     if k != v: co[k] = co.get(k, 0.0) + val / ap
                 for k, val in cn.items():
                     if k != v: co[k] = co.get(k, 0.0) + val / an
-                new.append((co, rp / ap + rn / an))
-        ineqs = new
-        if len(ineqs) > 20000: raise Undecided('FM blowup')
+                co = {k: val for k, val in co.items() if abs(val) >= 1e-11}
+                rhs = rp / ap + rn / an
+                if not co and rhs >= 0: continue
+                new.append((co, rhs))
+        tight = {}
+        for co, r in new:
+            key = tuple(sorted(co.items(), key=lambda kv: str(kv[0])))
+            if key not in tight or r < tight[key][1]: tight[key] = (co, r)
+        ineqs = list(tight.values())
     lo, hi = -INF, INF
     for co, r in ineqs:
         cz = co.get('__z', 0.0) if obj is not None else 0.0
@@ -187,6 +228,113 @@ def fm_feasible(rows, elim, obj=None):
         else: lo = max(lo, r / cz)
     if lo > hi + TOL: return (False, None, None)
     return (True, lo, hi)
+
+
+class LPFMDisagree(Exception):
+    pass
+
+
+def _simplex_min(T, basis, ncols, allowed, eps=1e-9):
+    """Bland's rule on a dense tableau T (m rows + cost row last; last column = rhs).  Minimises.
+    Returns 'opt' | 'unbounded'."""
+    m = len(T) - 1
+    for _ in range(20000):
+        cost = T[m]
+        e = -1
+        for j in range(ncols):
+            if allowed[j] and cost[j] < -eps: e = j; break
+        if e < 0: return 'opt'
+        lr = -1; best = None
+        for i in range(m):
+            a = T[i][e]
+            if a > eps:
+                ratio = T[i][-1] / a
+                if best is None or ratio < best - 1e-12 or (abs(ratio - best) <= 1e-12 and basis[i] < basis[lr]):
+                    best = ratio; lr = i
+        if lr < 0: return 'unbounded'
+        pv = T[lr][e]
+        T[lr] = [x / pv for x in T[lr]]
+        for i in range(m + 1):
+            if i != lr:
+                f = T[i][e]
+                if f != 0.0:
+                    row = T[lr]; T[i] = [x - f * y for x, y in zip(T[i], row)]
+        basis[lr] = e
+    raise Undecided('simplex iteration limit')
+
+
+def lp_feasible(rows, elim, obj=None):
+    """Same contract as fm_feasible, by a two-phase dense simplex (Bland's rule).
+    rows: (coefs, lb, ub) over the free variables `elim`; obj=(coefs, const): returns (feasible, min, max)."""
+    vs = sorted(set(elim)); idx = {v: k for k, v in enumerate(vs)}; n = len(vs)
+    ineq = []          # (dense a, b): a.x <= b   (rows relaxed by a relative 1e-9)
+    for row in rows:
+        co, lb, ub = row[0], row[1], row[2]
+        a = [0.0] * n
+        for v, c in co.items():
+            if v not in idx: raise Undecided('LP residual variables')
+            a[idx[v]] += c
+        if ub < INF: ineq.append((a, ub + 1e-9 * (1 + abs(ub))))
+        if lb > -INF: ineq.append(([-x for x in a], -lb + 1e-9 * (1 + abs(lb))))
+    m = len(ineq)
+    # columns: u_0..u_{n-1}, w_0..w_{n-1} (x = u - w), slacks s_0..s_{m-1}, artificials t_0..t_{m-1}
+    ncols = 2 * n + 2 * m
+    T = []; basis = []
+    for i, (a, b) in enumerate(ineq):
+        r = list(a) + [-x for x in a] + [0.0] * (2 * m) + [b]
+        r[2 * n + i] = 1.0
+        if b < 0: r = [-x for x in r]
+        r[2 * n + m + i] = 1.0
+        T.append(r); basis.append(2 * n + m + i)
+    cost = [0.0] * (ncols + 1)
+    for i in range(m):
+        for j in range(ncols + 1):
+            if j < 2 * n + m or j == ncols: cost[j] -= T[i][j]
+    T.append(cost)
+    allowed = [True] * ncols
+    _simplex_min(T, basis, ncols, allowed)
+    if -T[m][-1] > 1e-7: return (False, None, None)
+    for j in range(2 * n + m, ncols): allowed[j] = False
+    for i in range(m):                       # drive artificials out of the basis where possible
+        if basis[i] >= 2 * n + m:
+            for j in range(2 * n + m):
+                if abs(T[i][j]) > 1e-9:
+                    pv = T[i][j]; T[i] = [x / pv for x in T[i]]
+                    for i2 in range(m + 1):
+                        if i2 != i and T[i2][j] != 0.0:
+                            f = T[i2][j]; T[i2] = [x - f * y for x, y in zip(T[i2], T[i])]
+                    basis[i] = j; break
+    if obj is None: return (True, -INF, INF)
+    oc, o0 = obj
+    res = []
+    for sgn in (1.0, -1.0):                  # min, then max
+        T2 = [list(r) for r in T[:m]]; b2 = list(basis)
+        c = [0.0] * (ncols + 1)
+        for v, cv in oc.items():
+            if v not in idx: raise Undecided('LP residual variables')
+            c[idx[v]] += sgn * cv; c[n + idx[v]] -= sgn * cv
+        for i in range(m):                   # price out the basic columns
+            f = c[b2[i]]
+            if f != 0.0: c = [x - f * y for x, y in zip(c, T2[i])]
+        T2.append(c)
+        st = _simplex_min(T2, b2, ncols, allowed)
+        res.append(-INF if st == 'unbounded' else -T2[m][-1])
+    lo = res[0] + o0 if res[0] > -INF else -INF
+    hi = -res[1] + o0 if res[1] > -INF else INF
+    return (True, lo, hi)
+
+
+def lin_feasible(rows, elim, obj=None):
+    """Simplex decides; Fourier-Motzkin is run as an independent second opinion on small systems."""
+    ok, lo, hi = lp_feasible(rows, elim, obj)
+    if len(rows) <= 14 and len(set(elim)) <= 6:
+        try: ok2, lo2, hi2 = fm_feasible(rows, elim, obj)
+        except Undecided: return (ok, lo, hi)
+        close = lambda a, b: a == b or abs(a - b) <= 1e-5 * max(1.0, abs(a), abs(b))
+        if ok != ok2 or (ok and obj is not None and not (close(lo, lo2) and close(hi, hi2))):
+            # disagreement only counts when it is not a tolerance-boundary effect of the feasibility test
+            raise LPFMDisagree('LP %r vs FM %r' % ((ok, lo, hi), (ok2, lo2, hi2)))
+    return (ok, lo, hi)
 
 
 class Delivered:
@@ -347,19 +495,31 @@ class Delivered:
                     ck = c['_ck'] if val else {0: None, 1: -2, 2: -1, -1: 2, -2: 1}[c['_ck']]
                     rhs = d['con']['rhs_or_range'][1] - const
                     if ck is None:
-                        disj.append([(co, rhs + EPS_STRICT, INF), (co, -INF, rhs - EPS_STRICT)]); continue
+                        disj.append([[(co, rhs + EPS_STRICT, INF)], [(co, -INF, rhs - EPS_STRICT)]]); continue
                     if ck == 0: rows.append((co, rhs, rhs))
                     elif ck == 1: rows.append((co, rhs, INF))
                     elif ck == -1: rows.append((co, -INF, rhs))
                     elif ck == 2: rows.append((co, rhs + EPS_STRICT, INF))
                     elif ck == -2: rows.append((co, -INF, rhs - EPS_STRICT))
             elif k == 'sos':
+                # members in reference order; an alternative = an admissible support (SOS1: one position,
+                # SOS2: two adjacent positions); members outside it are 0 (checked if known, a row x=0 if not)
                 vs = d['vars']
-                if any(v not in a for v in vs): raise Undecided('SOS over unknown continuous')
                 order = sorted(range(len(vs)), key=lambda i: d['weights'][i])
-                nz = [pos for pos, i in enumerate(order) if abs(a[vs[i]]) > TOL]
-                if d['SOS_type'] == 1 and len(nz) > 1: return
-                if d['SOS_type'] == 2 and (len(nz) > 2 or (len(nz) == 2 and nz[1] - nz[0] != 1)): return
+                n = len(order); width = 1 if d['SOS_type'] == 1 else 2
+                alts = []
+                for s0 in range(0, max(n, width) - width + 1):
+                    alt = []; ok = True
+                    for pos in range(n):
+                        if s0 <= pos < s0 + width: continue
+                        v = vs[order[pos]]
+                        if v in a:
+                            if abs(a[v]) > TOL: ok = False; break
+                        else: alt.append(({v: 1.0}, 0.0, 0.0))
+                    if ok: alts.append(alt)
+                    if n <= width: break
+                if not alts: return
+                if not any(len(al) == 0 for al in alts): disj.append(alts)
             elif k == 'func':
                 r = d['res_var']
                 if (r >= 0 and r not in a) or any(v not in a for v in d['args']):
@@ -382,10 +542,13 @@ class Delivered:
         if want_obj and self.objs:
             o = self.objs[0]
             o0, oc = lin_of({'lin_terms': o['lin'], 'qp_terms': o['qp']}, a); obj = (oc, o0)
-        if len(disj) > 6: raise Undecided('too many disjunctions')
+        nalt = 1
+        for dd in disj:
+            nalt *= len(dd)
+            if nalt > 4096: raise Undecided('too many disjunctions')
         import itertools
         for alt in itertools.product(*disj):
-            ok, lo, hi = fm_feasible(rows + list(alt), unknown, obj)
+            ok, lo, hi = lin_feasible(rows + [r1 for al in alt for r1 in al], unknown, obj)
             if ok:
                 out['found'] = True
                 if obj is not None:
@@ -394,6 +557,50 @@ class Delivered:
                     if b is None or (sense == 1 and val > b) or (sense != 1 and val < b): out['best'] = val
                 if 'witness' not in out: out['witness'] = dict(a)
                 if obj is None: break
+
+    def implied_bounds(self, a):
+        """bounds of the unknown variables implied by the declared bounds and the linear rows under the partial
+        assignment a (only consequences are derived: restricting the search to them loses no solution)"""
+        L = {}; U = {}
+        for i in range(self.nv):
+            lb, ub, ty = self.vars[i]
+            L[i] = lb if lb > -1e300 else -INF; U[i] = ub if ub < 1e300 else INF
+        rows = []
+        for c in self.cons:
+            k = c['_k']; d = c['data']
+            try:
+                if k == 'alg':
+                    const, co = lin_of(d['body'], a)
+                    if co:
+                        lb, ub = rng_of(d['rhs_or_range']); rows.append((co, lb - const, ub - const))
+                elif k in ('lfc', 'qfc') and d['res_var'] >= 0:
+                    r = d['res_var']
+                    const, co = lin_of(d['expr']['body'], a); const += d['expr']['const_term']; co = dict(co)
+                    if r in a: const -= a[r]
+                    else: co[r] = co.get(r, 0.0) - 1.0
+                    if co: rows.append((co, -const, -const))
+            except Undecided: pass
+        for _ in range(20):
+            changed = False
+            for co, rlb, rub in rows:
+                for j, cj in co.items():
+                    if abs(cj) < 1e-12: continue
+                    smin = smax = 0.0
+                    for i2, c2 in co.items():
+                        if i2 == j: continue
+                        smin += c2 * L[i2] if c2 > 0 else c2 * U[i2]
+                        smax += c2 * U[i2] if c2 > 0 else c2 * L[i2]
+                    lo = rlb - smax; hi = rub - smin
+                    if lo != lo: lo = -INF
+                    if hi != hi: hi = INF
+                    nl, nu = (lo / cj, hi / cj) if cj > 0 else (hi / cj, lo / cj)
+                    if self.vars[j][2] == 1:
+                        if nl > -INF: nl = math.ceil(nl - 1e-7)
+                        if nu < INF: nu = math.floor(nu + 1e-7)
+                    if nl > L[j] + 1e-9: L[j] = nl; changed = True
+                    if nu < U[j] - 1e-9: U[j] = nu; changed = True
+            if not changed: break
+        return L, U
 
     def search(self, p, want_obj):
         """returns (exists, best_obj or None, witness)"""
@@ -417,7 +624,13 @@ class Delivered:
                 self.leaf(a, want_obj, sense, out); return
             i = min(ints, key=lambda j: self.vars[j][1] - self.vars[j][0])
             lb, ub, ty = self.vars[i]
-            if ub - lb > 64: raise Undecided('large integer aux domain %r' % ((lb, ub),))
+            if ub - lb > 64:
+                # declared domain too wide to enumerate: bounds implied by the linear rows (interval propagation)
+                L, U = self.implied_bounds(a)
+                i = min(ints, key=lambda j: U[j] - L[j])
+                lb, ub = L[i], U[i]
+                if not (ub - lb <= 64): raise Undecided('large integer aux domain %r' % ((lb, ub),))
+                if lb > ub + 1e-9: return
             for v in range(int(math.ceil(lb - 1e-9)), int(math.floor(ub + 1e-9)) + 1):
                 a2 = dict(a); a2[i] = float(v); dfs(a2)
                 if out['found'] and not want_obj: return
